@@ -32,7 +32,9 @@ func workerCmd(p *Prop, mode string, args ...string) *exec.Cmd {
 		cmd.Env = append(os.Environ(), "VSIM_MODE="+mode, "VSIM_ARGS="+strings.Join(args, "\x1f"))
 	case p.Race:
 		cmd = exec.Command(filepath.Join(bin, "vsim-race"), append([]string{mode}, args...)...)
-		cmd.Env = append(os.Environ(), "GORACE=halt_on_error=0 exitcode=0 history_size=2")
+		os.MkdirAll(filepath.Join(VerifDir(), "build", "race"), 0o755)
+		cmd.Env = append(os.Environ(), "GOMAXPROCS=2",
+			"GORACE=halt_on_error=0 exitcode=0 suppress_equal_stacks=0 suppress_equal_addresses=0 log_path="+filepath.Join(VerifDir(), "build", "race", mode))
 	default:
 		cmd = exec.Command(filepath.Join(bin, "vsim"), append([]string{mode}, args...)...)
 		cmd.Env = os.Environ()
@@ -194,6 +196,9 @@ func CoordMain(propID, tier string, seed uint64, runsOverride int) int {
 	hang := p.HangBudget
 	if hang == 0 {
 		hang = 60 * time.Second
+	}
+	if p.Race {
+		os.RemoveAll(filepath.Join(VerifDir(), "build", "race"))
 	}
 	fmt.Printf("vsim: property=%s tier=%s seed=%d runs=%d workers=%d batch=%d\n", propID, tier, seed, total, nw, batch)
 	cs := &coordState{total: total, batch: batch, stopAt: start.Add(wallCap), sigs: map[uint64]struct{}{},
